@@ -432,19 +432,21 @@ impl<ControllerRef: AsRef<KalmanController<Storage, C>>, Storage: KalmanStorage<
         direction: Direction,
     ) -> Result<(), AlgoError> {
         self.controller.as_ref().state.with_mut(|state| {
+            // Only replace the filter once the measurement as a whole has been
+            // accepted, so that a refused measurement leaves the state untouched.
             state.filter = state
                 .filter
                 .clone()
-                .progress_time(state.clocks[0].clock.now()?)?;
-
-            state.filter = state.filter.clone().measurement(
-                &state.filter_config,
-                DirectedLinkId::new(self.link_id, direction),
-                UncertainValue {
-                    value: (measurement.recv_timestamp - measurement.send_timestamp).as_seconds(),
-                    uncertainty: measurement.uncertainty.as_seconds(),
-                },
-            )?;
+                .progress_time(state.clocks[0].clock.now()?)?
+                .measurement(
+                    &state.filter_config,
+                    DirectedLinkId::new(self.link_id, direction),
+                    UncertainValue {
+                        value: (measurement.recv_timestamp - measurement.send_timestamp)
+                            .as_seconds(),
+                        uncertainty: measurement.uncertainty.as_seconds(),
+                    },
+                )?;
             state.steer_clocks()?;
             Ok(())
         })
